@@ -152,7 +152,7 @@ func newReplayBuilder(m *interp.Machine) (*replayBuilder, error) {
 		return nil, err
 	}
 	rb := &replayBuilder{tmp: tmp, bins: map[string]string{}, errs: map[string]string{}, names: map[string][]string{}}
-	_, real := overlay()
+	_, real := overlayFiles(false)
 	repl := map[string]string{}
 	for v, r := range real {
 		repl[v] = r
@@ -668,6 +668,16 @@ func checkCmd(args []string) int {
 			}
 		}
 	}
+	// the repository's own unit tests, executed by the engine (translation
+	// validation of the interpreter and its intrinsics on this tree)
+	stPassed, stNotEnc, stBad, stTotal := 0, 0, 0, 0
+	if os.Getenv("VERIF_NO_SELFTEST") == "" {
+		stPassed, stNotEnc, stBad, stTotal = runSelftest(false)
+		if stBad > 0 {
+			fmt.Printf("SELFTEST-DISAGREEMENT: %d of the repository's own tests fail or are missing when executed by the engine although the pinned suite passes natively (run `gosym selftest`)\n", stBad)
+			broken = true
+		}
+	}
 	sort.Strings(knownLines)
 	for _, l := range dedupe(knownLines) {
 		fmt.Println(l)
@@ -728,26 +738,29 @@ func checkCmd(args []string) int {
 				"non-trivial = the path condition contains at least one solver-decided conjunct; paths are distinct by construction (distinct decision vectors)",
 			"states":                                  tot.Paths + decTotal,
 			"transitions":                             decTotal + tot.Paths,
-			"traces_validated_against_impl":           replays + passReplays,
+			"traces_validated_against_impl":           replays + passReplays + stPassed,
+			"repo_unit_tests_passing_inside_engine":   stPassed,
+			"repo_unit_tests_pinned":                  stTotal,
+			"repo_unit_tests_not_encodable":           stNotEnc,
 			"native_replays_of_counterexamples":       replays,
 			"native_replays_of_sampled_passing_paths": passReplays,
-			"samples":                                 samples,
-			"exhaustive":                              false,
-			"technique":                               "bounded symbolic execution of go/ssa with SMT (z3) path feasibility and assertion discharge",
-			"harnesses":                               reports,
-			"functions_encoded":                       fnList,
-			"intrinsics_used":                         inList,
-			"bounds":                                  spec.Bounds[tier],
-			"outside_the_claim":                       spec.Outside,
-			"queries":                                 map[string]any{"feasibility": tot.QFeas, "assertion": tot.QAssert, "answered_from_cache": tot.QCached, "answered_by_cached_model": tot.QModelHit, "unknown": tot.QUnknown},
-			"assertions_discharged":                   tot.AssertsChecked,
-			"solver":                                  solverFromEnv().String(),
-			"solver_s":                                solverS,
-			"decisions_by_kind":                       decMap,
-			"known_findings":                          dedupe(knownLines),
-			"engine_mismatch":                         mismatchLines,
-			"load_s":                                  m.LoadTime.Seconds(),
-			"ssa_build_s":                             m.BuildTime.Seconds(),
+			"samples":               samples,
+			"exhaustive":            false,
+			"technique":             "bounded symbolic execution of go/ssa with SMT (z3) path feasibility and assertion discharge",
+			"harnesses":             reports,
+			"functions_encoded":     fnList,
+			"intrinsics_used":       inList,
+			"bounds":                spec.Bounds[tier],
+			"outside_the_claim":     spec.Outside,
+			"queries":               map[string]any{"feasibility": tot.QFeas, "assertion": tot.QAssert, "answered_from_cache": tot.QCached, "answered_by_cached_model": tot.QModelHit, "unknown": tot.QUnknown},
+			"assertions_discharged": tot.AssertsChecked,
+			"solver":                solverFromEnv().String(),
+			"solver_s":              solverS,
+			"decisions_by_kind":     decMap,
+			"known_findings":        dedupe(knownLines),
+			"engine_mismatch":       mismatchLines,
+			"load_s":                m.LoadTime.Seconds(),
+			"ssa_build_s":           m.BuildTime.Seconds(),
 		},
 	}
 	evDir := filepath.Join(verifRoot(), "evidence")
